@@ -11,7 +11,8 @@ LEVEL = 'other'
 
 CATS = ['sources', 'outputs', 'attachments', 'metadata', 'id', 'details']
 FLAG = {'sources': 's', 'outputs': 'o', 'attachments': 'a', 'metadata': 'm', 'id': 'i', 'details': 'd'}
-KNOWN = {'mapping-atomic-id': 'C14-mapping-id', 'nonempty:outputs-misalign': 'C14-ignored-outputs-misalign'}
+KNOWN = {'mapping-atomic-id': 'C14-mapping-id', 'nonempty:outputs-misalign': 'C14-ignored-outputs-misalign',
+         'ignore-mapping-reset-by-config-boolean': 'C14-config-boolean-resets-ignore-mapping'}
 
 
 def category(starpath):
@@ -80,6 +81,15 @@ def _metadata_keys(nbs):
     return sorted(nbk), sorted(cellk), sorted(outk)
 
 
+def _whole_path_entries(cat):
+    "Ignore-mapping entries that hide one category completely"
+    return {'sources': {'/cells/*/source': True}, 'outputs': {'/cells/*/outputs': True},
+            'attachments': {'/cells/*/attachments': True, '/cells/*': ['attachments']},
+            'metadata': {'/metadata': True, '/cells/*/metadata': True, '/cells/*/outputs/*/metadata': True},
+            'id': {'/cells/*': ['id']},
+            'details': {'/cells/*': ['execution_count'], '/cells/*/outputs/*': ['execution_count']}}[cat]
+
+
 def configure(ignored, form, nbs=()):
     """install the ignore set through one of the user-visible ways: negative flags, positive flags, an Ignore mapping with whole-path
     entries, or an Ignore mapping that hides metadata through key lists naming every metadata key that occurs (`keylist`)"""
@@ -92,6 +102,42 @@ def configure(ignored, form, nbs=()):
         flags = ['-' + FLAG[c] for c in CATS if c not in ignored]
         if not flags:
             flags = ['-' + FLAG[c].upper() for c in CATS]      # nothing to process: all six negative flags
+    if form == 'config-mixed':
+        # everything in ONE configuration file of the working directory, no flags: some categories through the booleans, the others
+        # through whole-path entries of the Ignore mapping -- read by the real parser of the diff command
+        import json as _json, os, shutil, tempfile
+        from nbdime import nbdiffapp
+        cats = [c for c in CATS if c in ignored]
+        by_bool = [c for c in cats[::2] if c not in ('id', 'details')] or cats[:1]
+        by_map = [c for c in cats if c not in by_bool]
+        section = {c: False for c in by_bool}
+        mapping = {}
+        for c in by_map:
+            mapping.update(_whole_path_entries(c))
+        if '/cells/*' in mapping:
+            mapping['/cells/*'] = sorted(set(mapping['/cells/*']))
+        section['Ignore'] = mapping
+        d = tempfile.mkdtemp(prefix='nbdime-verif-c14-')
+        old = os.getcwd()
+        saved = {k: os.environ.get(k) for k in ('JUPYTER_CONFIG_DIR', 'JUPYTER_CONFIG_PATH', 'JUPYTER_NO_CONFIG', 'HOME')}
+        try:
+            with open(os.path.join(d, 'nbdime_config.json'), 'w') as fh:
+                _json.dump({'NbDiff': section}, fh)
+            os.environ.update({'JUPYTER_CONFIG_DIR': os.path.join(d, 'none'), 'JUPYTER_CONFIG_PATH': os.path.join(d, 'none'), 'HOME': d})
+            os.environ.pop('JUPYTER_NO_CONFIG', None)
+            os.chdir(d)
+            parser = nbdiffapp._build_arg_parser(prog='nbdiff')
+            ns = parser.parse_args(['a.ipynb', 'b.ipynb'])
+            nargs.process_diff_flags(ns)
+        finally:
+            os.chdir(old)
+            for k, v in saved.items():
+                if v is None:
+                    os.environ.pop(k, None)
+                else:
+                    os.environ[k] = v
+            shutil.rmtree(d, ignore_errors=True)
+        return {'config NbDiff': section, 'by_map': by_map}
     if form == 'config+flags':
         # part of the set through the booleans of a configuration file in the working directory, the rest through negative flags, both
         # read by the real parser of the diff command (nbdime.nbdiffapp); an empty flag list leaves the configuration alone in charge
@@ -166,6 +212,12 @@ def check_pair(a, b, ignored, form):
         pd = nbspace.to_plain(d)
         for sp, e in entries(pd):
             cat = category(sp)
+            if cat in ignored and form == 'config-mixed' and cat in how['by_map'] and len(how['config NbDiff']) > 1:
+                # recorded finding: a boolean in the configuration makes process_diff_flags re-install the standard table, which
+                # wipes what the Ignore mapping of the same configuration had set
+                out.append(('ignore-mapping-reset-by-config-boolean', 'category %s, hidden through the Ignore mapping of the configuration, is reported at %s because the same '
+                            'configuration also sets a boolean (%r)' % (cat, sp, how['config NbDiff'])))
+                break
             if cat in ignored:
                 out.append(('reported:' + cat, 'ignored category %s is reported at %s: %r (ignored=%s via %s %r)' % (cat, sp, e if e['op'] != 'patch' else {'op': 'patch', 'key': e['key']}, sorted(ignored), form, how)))
                 break
@@ -177,7 +229,8 @@ def check_pair(a, b, ignored, form):
                             % (first_difference(mask(nbspace.to_plain(p), ignored), mask(nbspace.to_plain(b), ignored)), sorted(ignored), form)))
         except Exception as exc:
             out.append(('patch-crash', 'patch_notebook raised %s: %s (ignored=%s via %s)' % (type(exc).__name__, exc, sorted(ignored), form)))
-        if 'sources' not in ignored and nbspace.canon(mask(nbspace.to_plain(a), ignored)) == nbspace.canon(mask(nbspace.to_plain(b), ignored)) and pd:
+        reset = any(k == 'ignore-mapping-reset-by-config-boolean' for k, _ in out)      # the non-empty diff below is that finding again
+        if 'sources' not in ignored and not reset and nbspace.canon(mask(nbspace.to_plain(a), ignored)) == nbspace.canon(mask(nbspace.to_plain(b), ignored)) and pd:
             kind = 'nonempty'
             cells_diff = [e for e in pd if e.get('key') == 'cells' and e['op'] == 'patch']
             if 'outputs' in ignored and len(a['cells']) == len(b['cells']) and len(pd) == 1 and cells_diff and \
@@ -228,8 +281,10 @@ def _job(job):
                 bb = b
             if nbspace.validate_strict(bb):
                 continue
-            for form in ('negative', 'positive', 'mapping', 'keylist', 'config+flags'):
-                if form == 'config+flags' and not ignored:
+            for form in ('negative', 'positive', 'mapping', 'keylist', 'config+flags', 'config-mixed'):
+                if form in ('config+flags', 'config-mixed') and not ignored:
+                    continue
+                if form == 'config-mixed' and len(ignored) < 2:
                     continue
                 cnt += 1
                 keys.add(hash((nbspace.canon(a), nbspace.canon(bb), ignored, form)))
